@@ -79,6 +79,7 @@ def check(ctx):
     one, two = configs(ctx)
     r1 = pmap(dwtlib.w_fwd1d, ctx.repo, one, ctx.jobs)
     r2 = pmap(dwtlib.w_fwd2d, ctx.repo, two, ctx.jobs)
+    r2 = r2 + pmap(dwtlib.w_dim_alias, ctx.repo, [('afb1d', m, L, H, W, d) for m in dwtlib.MODES5 for (L, H, W) in ((4, 9, 12), (6, 5, 7)) for d in (-1, -2)], ctx.jobs)
     findings = []
     cmp_ = diff = 0
     samples = []
